@@ -530,9 +530,9 @@ add("O2", "break", CORE, "GroupBy.size", "        return self._apply_gb_reductio
 add("A1", "break", CORE, PRE, "        to_check = list(value_list)\n", "", also=((CORE, PRE, "        mask_is_boolean = mask is not None", "        to_check = value_list\n        mask_is_boolean = mask is not None"),), name="A1 validation runs after the timestamp conversion dropped the index", expect_func="*")
 add("A1", "break", CORE, PRE, " or (isinstance(mask, pl.Series) and mask.dtype == pl.Boolean)", "", name="A1 polars boolean masks not recognised as boolean", expect_func="*")
 add("A1", "keep", CORE, PRE, "        to_check = list(value_list)\n", "        to_check = [*value_list]\n", name="A1 copy of the value list taken with a star expression")
-add("P5b", "break", CORE, "GroupBy.apply", "group_index = group_index[[len(arr) > 0 for arr in array_splits[0]]]", "group_index = group_index[self.count_ikey(mask) > 0]", name="P5b label-sorted index filtered by code-order counts")
-add("P5b", "break", CORE, "GroupBy.apply", "group_index = group_index[group_counts > 0]", "group_index = group_index[self.ikey_count > 0]", name="P5b label-sorted index filtered by the raw key counts")
-add("P5b", "keep", CORE, "GroupBy.apply", "group_index = group_index[group_counts > 0]", "group_index = group_index[self.ikey_count[self._labels_argsort] > 0]", name="P5b counts re-ordered by the label permutation first")
+add("P5b", "break", CORE, "GroupBy.apply", "observed = np.array([len(arr) > 0 for arr in array_splits[0]], dtype=bool)", "observed = self.count_ikey(mask) > 0", name="P5b label-sorted index filtered by code-order counts")
+add("P5b", "break", CORE, "GroupBy.apply", "observed = group_counts > 0", "observed = self.ikey_count > 0", name="P5b label-sorted index filtered by the raw key counts")
+add("P5b", "keep", CORE, "GroupBy.apply", "observed = group_counts > 0", "observed = self.ikey_count[self._labels_argsort] > 0", name="P5b counts re-ordered by the label permutation first")
 add("P20", "break", CORE, "GroupBy.var", "return (sq_sum - sum_sq / count) / (count - ddof)", "return np.fmax(sq_sum - sum_sq / count, 0.0) / (count - ddof)", name="P20 variance numerator clamped with fmax (drops NaN)")
 add("P20", "break", UTIL, "mean_from_sum_count", "return sum_ / count", "return (sum_ / count).fillna(0)", name="P20 mean of an empty group filled with 0")
 add("P20", "keep", CORE, "GroupBy.var", "return (sq_sum - sum_sq / count) / (count - ddof)", "return np.maximum(sq_sum - sum_sq / count, 0.0) / (count - ddof)", name="P20 clamp with np.maximum (propagates NaN)")
@@ -756,3 +756,9 @@ add("P2c", "break", CORE, AGR, "pd.Series(np.append(n, np.zeros(len(sums) - len(
 add("P28", "break", CORE, "GroupBy._apply_rolling_or_cumulative_func", "result_dict[key] = self._convert_arr_to_pandas_series(result, dtype, common_index)", "series = self._convert_arr_to_pandas_series(result, dtype, common_index)\n                result_dict[key] = series.mask(np.asarray(self.group_ikey) < 0)", name="P28 null-key rows masked (int -> float)")
 add("P28", "break", CORE, "GroupBy._apply_rolling_or_cumulative_func", "result_dict[key] = self._convert_arr_to_pandas_series(result, dtype, common_index)", "result_dict[key] = self._convert_arr_to_pandas_series(result, dtype, common_index).where(np.asarray(self.group_ikey) >= 0)", name="P28 where on the conversion result")
 add("P28", "keep", CORE, "GroupBy._apply_rolling_or_cumulative_func", "result_dict[key] = self._convert_arr_to_pandas_series(result, dtype, common_index)", "series = self._convert_arr_to_pandas_series(result, dtype, common_index)\n                result_dict[key] = series", name="P28 through a local")
+
+# --------------------------------------------------------------------------------------------- P5 / P6 at apply(transform=True) (repaired)
+add("P5", "break", CORE, "GroupBy.apply", "arrays = [broadcast_to_rows(arr) for arr in arrays]", "arrays = [arr[self.group_ikey] for arr in arrays]", name="P5 apply: label-sorted results indexed by row codes (the defect repaired in /repo)", expect_func="*")
+add("P6", "break", CORE, "GroupBy.apply", "by_code = np.full(self.ngroups + 1, null, dtype=arr.dtype)", "by_code = np.full(self.ngroups, null, dtype=arr.dtype)", name="P6 apply: per-code table without the null slot", expect_func="*")
+add("P5", "break", CORE, "GroupBy.apply", "observed_codes = np.arange(self.ngroups)[self._labels_argsort][observed]", "observed_codes = np.arange(self.ngroups)[observed]", name="P5 apply: results scattered without the label permutation", expect_func="*")
+add("P6", "keep", CORE, "GroupBy.apply", "by_code = np.full(self.ngroups + 1, null, dtype=arr.dtype)", "by_code = np.full(1 + self.ngroups, null, dtype=arr.dtype)", name="P6 apply: 1 + ngroups")
